@@ -93,7 +93,21 @@ func runC24(c *Ctx) {
 		return
 	}
 	owners := map[string]bool{"ExportOptions": true, "TimeoutConfig": true, "TuningOptions": true}
-	D := extractDefaults(p, nw, owners)
+	// the constructor's normalisation may live in helpers it calls (e.g. (*TuningOptions).applyDefaults)
+	ctorFns := append([]*ssa.Function{nw}, funcsReach(p, nw)...)
+	D := map[string]string{}
+	for _, g := range ctorFns {
+		if g.Pkg == nil || g.Pkg.Pkg.Path() != absnfsPath {
+			continue
+		}
+		for k, v := range extractDefaults(p, g, owners) {
+			if old, dup := D[k]; dup && old != v {
+				c.bad(P, "defaults-table", "row="+k, p.pos(g.Pos()), "the constructor path normalises "+k+" to two different defaults ("+old+" and "+v+")")
+				continue
+			}
+			D[k] = v
+		}
+	}
 	var rows []string
 	for k := range D {
 		rows = append(rows, k)
@@ -104,16 +118,20 @@ func runC24(c *Ctx) {
 	}
 	// nil pointers: Timeouts, RateLimitConfig
 	for _, ptr := range []string{"Timeouts", "RateLimitConfig"} {
-		fld := p.field("ExportOptions", ptr)
 		good := false
-		for _, b := range nw.Blocks {
-			for _, in := range b.Instrs {
-				if st, ok := in.(*ssa.Store); ok {
-					if _, f, ok := fieldAddrOf(st.Addr); ok && f == fld {
-						for _, fact := range p.facts(b) {
-							if bo, ok := fact.V.(*ssa.BinOp); ok && fact.Val && bo.Op == token.EQL && isNilConst(bo.Y) {
-								if _, lf, ok := fieldLoad(bo.X); ok && lf == fld {
-									good = true
+		for _, g := range ctorFns {
+			if g.Pkg == nil || g.Pkg.Pkg.Path() != absnfsPath {
+				continue
+			}
+			for _, b := range g.Blocks {
+				for _, in := range b.Instrs {
+					if st, ok := in.(*ssa.Store); ok {
+						if base, f, ok := fieldAddrOf(st.Addr); ok && f != nil && f.Name() == ptr && owners[recvTypeName(base.Type())] {
+							for _, fact := range p.facts(b) {
+								if bo, ok := fact.V.(*ssa.BinOp); ok && fact.Val && bo.Op == token.EQL && isNilConst(bo.Y) {
+									if _, lf, ok := fieldLoad(bo.X); ok && lf == f {
+										good = true
+									}
 								}
 							}
 						}
@@ -137,12 +155,16 @@ func runC24(c *Ctx) {
 		}
 	}
 	// normaliser functions: contain the pattern for a given field on TuningOptions/ExportOptions/TimeoutConfig
+	// a normaliser counts for field k only when it installs the constructor's default for k
 	normalisers := map[string]map[*ssa.Function]bool{}
 	for _, fn := range p.SrcFuncs {
 		if fn == nw {
 			continue
 		}
-		for k := range extractDefaults(p, fn, owners) {
+		for k, v := range extractDefaults(p, fn, owners) {
+			if v != D[k] && v != "expr" && D[k] != "expr" {
+				continue
+			}
 			if normalisers[k] == nil {
 				normalisers[k] = map[*ssa.Function]bool{}
 			}
